@@ -3,7 +3,9 @@ package server
 import (
 	"fmt"
 	"net/http"
+	"strconv"
 	"strings"
+	"unicode/utf8"
 
 	"github.com/tidwall/tile38/core"
 	"github.com/tidwall/tile38/internal/collection"
@@ -125,7 +127,7 @@ func (s *Server) Collect(ch chan<- prometheus.Metric) {
 	s.cols.Scan(func(key string, col *collection.Collection) bool {
 		// a label that is not valid UTF-8 makes MustNewConstMetric panic, on
 		// a goroutine of the registry where nothing recovers
-		key = strings.ToValidUTF8(key, "\uFFFD")
+		key = metricsLabel(key)
 		ch <- prometheus.MustNewConstMetric(
 			metricDescriptions["collection_objects"],
 			prometheus.GaugeValue,
@@ -180,4 +182,15 @@ func toFloat(val interface{}) (float64, bool) {
 		return float64(v), true
 	}
 	return 0, false
+}
+
+// metricsLabel makes a label value of a collection key. A key that is not
+// valid UTF-8 is shown quoted with its bytes escaped, and so is a key that
+// starts with a quote, so that two keys never share a label: the registry
+// refuses a scrape in which a label value occurs twice.
+func metricsLabel(key string) string {
+	if utf8.ValidString(key) && !strings.HasPrefix(key, `"`) {
+		return key
+	}
+	return strconv.QuoteToASCII(key)
 }
